@@ -205,7 +205,15 @@ def install(interp):
             return y
         if isinstance(x, (tuple, list)):
             return GenList(x)
-        return GenList(interp.iterate(x)) if isinstance(x, IObj) else iter(x)
+        if isinstance(x, IObj):
+            m, _ = x.cls.lookup("__iter__")
+            if m is None:
+                raise PyExc(TypeError, (f"{x.cls.name!r} object is not iterable",))
+            r = interp.call(m, [x], {})
+            if isinstance(r, SymSeq) and not r.concrete_len():
+                return r
+            return GenList(interp.iterate(r))
+        return iter(x)
 
     def py_next(it, *default):
         try:
